@@ -182,6 +182,19 @@ class Arms:
         models[r"^Result::<(value::)?Value, EarlyEndOfStreamError>::expect$"] = M.m_expect
         models[r"^(value::)?Value::zero$"] = lambda mach, name, args: [(T(), "ret", Opaque("value", {"ty": strip(args[0]), "from": "zero"}))]
         models[r"^(value::)?Value::unit$"] = lambda mach, name, args: [(T(), "ret", Opaque("value", {"ty": "the unit type", "from": "unit"}))]
+        # code that looks at the entry *below* the one being executed (`call_stack.last()`): any entry or none
+        self.next_kind = BV("next_entry_kind")
+
+        def cs_last(mach, name, args):
+            outs = []
+            for i, v in enumerate(CS_VARIANTS):
+                flds = [BV("next_entry_amount")] if v in ("CopyFwd", "Back") else ([Ref(Opaque("node", {"name": "some node", "arrow": None}))] if v == "Goto" else [])
+                outs.append((self.next_kind == C(i), "ret", Adt("Option", [Ref(Adt("CallStack", flds, v))], "Some")))
+            outs.append((z3.UGE(self.next_kind, C(len(CS_VARIANTS))), "ret", Adt("Option", [], "None")))
+            return outs
+        models[r"^core::slice::<impl \[CallStack<'_>\]>::last$"] = cs_last
+        models[r"^<Vec<CallStack<'_>> as Deref>::deref$"] = lambda mach, name, args: [(T(), "ret", Ref(Opaque("callstack_slice")))]
+        models[r"^Vec::<CallStack<'_>>::len$"] = lambda mach, name, args: [(T(), "ret", BV("call_stack_len"))]
         mach = M.Machine(self.funcs, models)
         orig_rvalue = mach.rvalue
         vidx = self.vidx
@@ -295,7 +308,7 @@ def run_pop_checks(arms, sol, log, section):
             bad = [x for x in bad if not z3.is_false(z3.simplify(x))]
             qn = "P.%s is executed as the micro-operations it stands for, then the next entry is popped" % v
             if bad:
-                sol.add(qn, [z3.Or(bad)], vars_for_model=[n])
+                sol.add(qn, [z3.Or(bad)], vars_for_model=[n, arms.next_kind])
             else:
                 sol.trivial(qn, "%d path(s), effect syntactically equal to the reference" % len(outs))
             explored.append("P." + v)
